@@ -226,7 +226,7 @@ def execute(case, tape):
     return out
 
 
-BUDGET = {"quick": (40000, 60), "thorough": (800000, 900)}
+BUDGET = {"quick": (120000, 75), "thorough": (2400000, 1500)}
 REAL = ["pydcop.infrastructure.computations (SynchronousComputationMixin, "
         "MessagePassingComputation, SynchronizationMsg)", "pydcop.algorithms.maxsum",
         "pydcop.algorithms.dsatuto"]
